@@ -17,6 +17,16 @@ import (
 func addrInstanceSplit(addr string) (string, string) {
 	var instance string
 	// The address may be specified as server, server:port or server:port:instance.
+	// An IPv6 server is written in brackets, as in carbon: [server]:port or [server]:port:instance.
+	if strings.HasPrefix(addr, "[") {
+		if end := strings.Index(addr, "]:"); end > 0 {
+			if rest := addr[end+2:]; strings.Count(rest, ":") == 1 {
+				sep := strings.Index(rest, ":")
+				return addr[:end+2] + rest[:sep], rest[sep+1:]
+			}
+		}
+		return addr, instance
+	}
 	if strings.Count(addr, ":") == 2 {
 		addrComponents := strings.Split(addr, ":")
 		addr = strings.Join(addrComponents[0:2], ":")
